@@ -143,11 +143,21 @@ ROUND6 = {
  "C20": " Pause/Resume of the manager (busy manager) as timed symbols; judged at the first slot after it resumed.",
 }
 
+# additions after the seventh round of seeded changes
+ROUND7 = {
+ "C01": " Storage fault in a subprocess (RLIMIT_FSIZE 20000): a 40000-byte piece cannot be stored completely; nothing may count as stored that is not. Manager and connection task must agree on whether a peer chokes us.",
+ "C05": " Every document without trailer also without its last byte (cut-off .torrent): refused, or hashed like the complete one.",
+ "C06": " Piece with length prefix 8 / 1, Request with 12, Cancel with 14.",
+ "C12": " Invariant: manager and connection task agree on whether the peer chokes us (the task follows the wire).",
+ "C19": " Late-fault cases (two announce tasks alive, one more failure after the first good reply) and a probe after every recovery.",
+ "C20": " A timed scenario with every message kind as the only sign of life.",
+}
+
 def main():
     checks = []
     for pid in sorted(CHECKS):
         level, technique, engine, text, note, ref = CHECKS[pid]
-        text = text + ROUND3.get(pid, "") + ROUND4.get(pid, "") + ROUND5.get(pid, "") + ROUND5B.get(pid, "") + ROUND6.get(pid, "")
+        text = text + ROUND3.get(pid, "") + ROUND4.get(pid, "") + ROUND5.get(pid, "") + ROUND5B.get(pid, "") + ROUND6.get(pid, "") + ROUND7.get(pid, "")
         checks.append({
             "property_id": pid,
             "quick_cmd": "./check %s --tier quick" % pid,
